@@ -12,6 +12,17 @@
 #[global_allocator]
 static GLOBAL: tikv_jemallocator::Jemalloc = tikv_jemallocator::Jemalloc;
 
+// Verification seam (compiled only with `--cfg ragc_verif`): inside a simulated run, what the
+// commands of this file and of `inspect` print to standard output goes to the simulator's disk. Like `println!`,
+// a failed write panics.
+#[cfg(ragc_verif)]
+macro_rules! println {
+    ($($arg:tt)*) => {{
+        use std::io::Write as _;
+        writeln!(ragc_common::verif::stdout(), $($arg)*).expect("failed printing to stdout");
+    }};
+}
+
 mod inspect;
 
 use anyhow::Result;
@@ -23,16 +34,6 @@ use ragc_core::{
 use std::io::{self, Write};
 use std::path::{Path, PathBuf};
 
-// Verification seam (compiled only with `--cfg ragc_verif`): inside a simulated run, what the
-// commands of this file print to standard output goes to the simulator's disk. Like `println!`,
-// a failed write panics.
-#[cfg(ragc_verif)]
-macro_rules! println {
-    ($($arg:tt)*) => {{
-        use std::io::Write as _;
-        writeln!(ragc_common::verif::stdout(), $($arg)*).expect("failed printing to stdout");
-    }};
-}
 
 #[derive(Parser, Debug)]
 #[command(name = "agc")]
@@ -1466,4 +1467,10 @@ pub mod verif_cli {
     pub fn ctglen(archive: PathBuf, sample: String, contig: String) -> Result<()> {
         ctglen_command(archive, sample, contig)
     }
+
+    pub fn inspect(archive: PathBuf, config: inspect::InspectConfig) -> Result<()> {
+        inspect::inspect_archive(archive, config)
+    }
+
+    pub use super::inspect::InspectConfig;
 }
